@@ -12,11 +12,38 @@ import apiharness as H
 import common as C
 
 
+class VirtualClockLoop(asyncio.SelectorEventLoop):
+    """An event loop whose clock is virtual: when nothing is ready to run, the clock JUMPS to the earliest pending timer instead of
+    waiting for it.  Only in-memory streams are used under it, so nothing real is ever waited for; a reply that comes "10.4 s late"
+    costs no wall time, and every timeout the code under test arms (asyncio.wait_for, loop.call_later) fires in its proper order."""
+
+    def __init__(self):
+        super().__init__()
+        self._vt = 0.0
+
+    def time(self):
+        return self._vt
+
+    def _run_once(self):
+        import heapq
+        if not self._ready and self._scheduled:
+            while self._scheduled and self._scheduled[0]._cancelled:
+                h = heapq.heappop(self._scheduled)
+                h._scheduled = False
+            if self._scheduled:
+                self._vt = max(self._vt, self._scheduled[0]._when)
+        super()._run_once()
+
+
 class GatedReader:
     def __init__(self):
         self.replies: List[bytes] = []
         self.waiters = 0            # reads pending on this stream (more than one only if two clients share it, which they must not)
         self.permit: asyncio.Queue = asyncio.Queue()
+        self.delays: List[float] = []   # seconds (virtual) the device takes for each of the coming replies
+        self.reads = 0                  # read() calls so far
+        self.inbox: List[bytes] = []    # a reply handed over to exactly the read that was waiting for it
+        self.stale: List[bytes] = []    # replies that arrived after the client had stopped waiting for them: still in the stream, in front
 
     @property
     def waiting(self) -> bool:
@@ -28,10 +55,15 @@ class GatedReader:
 
     async def read(self, n: int = -1) -> bytes:
         self.waiters += 1
+        self.reads += 1
         try:
             await self.permit.get()
         finally:
             self.waiters -= 1
+        if self.inbox:
+            return self.inbox.pop(0)
+        if self.stale:
+            return self.stale.pop(0)
         return self.replies.pop(0) if self.replies else b""
 
 
@@ -75,6 +107,16 @@ async def _run(hist, traveller):
             want = sched[k % len(sched)] if sched else waiting[0]
             k += 1
             i = want if want in waiting else waiting[0]
+            d = readers[i].delays.pop(0) if readers[i].delays else 0
+            if d and not readers[i].stale:
+                # the device takes d seconds (of the loop's virtual clock) over this reply: whatever timers the client armed meanwhile fire
+                rd = readers[i].reads
+                rep = readers[i].replies.pop(0) if readers[i].replies else b""
+                await asyncio.sleep(d)
+                if readers[i].reads != rd or not readers[i].waiting or tasks[i].done():
+                    readers[i].stale.append(rep)    # the client gave that read up: the reply arrives all the same and stays in the stream
+                    continue
+                readers[i].inbox.append(rep)
             readers[i].waiting = False
             readers[i].permit.put_nowait(1)
             for _ in range(200):
@@ -98,6 +140,7 @@ async def _instance_with_writer(idx, inst, reader, log, outs, traveller):
             await api.disconnect()
             await api.connect()
         reader.replies = [bytes.fromhex(r) if r != "-" else b"" for r in op["replies"]]
+        reader.delays = list(op.get("delays", []))
         before = len(log)
         traveller.move_to(float(op["now"]))
         try:
@@ -110,10 +153,36 @@ async def _instance_with_writer(idx, inst, reader, log, outs, traveller):
     await api.disconnect()
 
 
+def with_slow_replies(rng, hist: Dict[str, Any]) -> Dict[str, Any]:
+    """the same history with a device that takes its time over some replies (0.5 s .. 2 min of the loop's VIRTUAL clock): no reply is
+    lost or changed, so every operation must write and return exactly what it would have with a prompt device"""
+    insts = []
+    for inst in hist["instances"]:
+        ops = []
+        for op in inst["ops"]:
+            op = dict(op)
+            if rng.random() < 0.4:
+                d = [0.0] * len(op["replies"])
+                d[rng.randrange(min(len(d), 3))] = rng.choice([0.5, 2.9, 3.5, 5.5, 10.4, 15.5, 31.0, 61.0, 121.0])
+                op["delays"] = d
+            ops.append(op)
+        insts.append(dict(inst, ops=ops))
+    return dict(hist, instances=insts, virtual_clock=True)
+
+
 def run_history(hist: Dict[str, Any]) -> str:
     H.set_tz(hist.get("tz", "UTC"))
     with time_machine.travel(0.0, tick=False) as traveller:
-        outs = H.loop().run_until_complete(_run(hist, traveller))
+        if hist.get("virtual_clock"):
+            vl = VirtualClockLoop()
+            try:
+                asyncio.set_event_loop(vl)
+                outs = vl.run_until_complete(_run(hist, traveller))
+            finally:
+                vl.close()
+                asyncio.set_event_loop(H.loop())
+        else:
+            outs = H.loop().run_until_complete(_run(hist, traveller))
     return " || ".join(" ;; ".join(o) for o in outs)
 
 
